@@ -118,6 +118,8 @@ def run_construct(fs, ts, rounds: int, max_candidates: int | None = None, max_yi
                     break
         except _Alarm:
             why = "alarm"
+        except Exception as e:  # noqa: BLE001   (construct itself raised: judged by check_run)
+            why = f"raised {type(e).__name__}: {e}"[:200]
         finally:
             signal.setitimer(signal.ITIMER_REAL, 0)
             signal.signal(signal.SIGALRM, old)
@@ -444,6 +446,21 @@ def search(payload):
         ys, info = run_construct(fs_, ts_, rounds=2, max_yields=60, seconds=30)
         total_yields += len(ys)
         n += check_run(list(fs_), list(ts_), ys, info, fails, f"rounds 0-1, example sets given as {type(fs_).__name__} / {type(ts_).__name__}")
+    # members that are == ACROSS TYPES inside ONE example set (1 / 1.0 / True, 0 / 0.0 / False, in both orders): every one of them is an example of
+    # its own - a run that folds them together (deduplication by ==, a set/dict of examples) checks only the first of each group
+    twins = [(["a"], [1, 1.0]), (["a"], [1.0, 1]), ([0, 0.0, "x"], [None]), ([0.0, 0, "x"], [None]), ([None], [True, 1]), ([None], [1, True]), (["s"], [0, False]),
+             (["s"], [False, 0]), ([1, 1.0], ["a"]), ([1.0, 1], [None]), ([False, 0.0], [[]]), ([0.0, False], [[]]), ([2, 2.0, None], ["a", "b"]), ([[]], [1, 1.0, True]),
+             ([[]], [True, 1.0, 1]), ([1, 1.0], [2, 2.0]), (["x", 3.0], [3, "y"]), ([{1}, frozenset({1})], [1]), ([1], [{1}, frozenset({1})])]
+    for fs, ts in twins:
+        for rounds, cut in ((2, None), (3, 400)):
+            ys, info = run_construct(list(fs), list(ts), rounds=rounds, max_yields=cut, seconds=60)
+            if info["stopped_by"] == "alarm":
+                continue
+            total_yields += len(ys)
+            before = len(fails)
+            n += check_run(fs, ts, ys, info, fails, f"rounds 0-{rounds - 1}, members equal across types inside one example set")
+            if len(fails) > before:
+                break
     fails.sort(key=lambda f: (f["false_set"] == "[]") + (f["true_set"] == "[]"))     # prefer witnesses with two non-empty sets
     return {"evaluations": n, "failures": fails[:5], "known_hits": [], "set_pairs": len(pairs), "yields_checked": total_yields,
             "round2_yields_checked": r2_yields, "samples": samples}
